@@ -58,6 +58,7 @@ type Shared struct {
 	deadline time.Time
 	tier    string
 	secondSolver string
+	fixedMapOrder bool
 
 	mu        sync.Mutex
 	pending   [][]bool
